@@ -1,3 +1,5 @@
+//go:build verif_c14
+
 package main
 
 // C14 worker: the harness binary re-executes itself with VH_C14_WORKER=1. A
